@@ -11,11 +11,11 @@
      schedule peek new_event upd_event add_callback remove_first_cb
      trigger_event                Event.succeed / Event.fail without the guard (sets outcome, schedules NORMAL)
      call_timeout call_event call_succeed call_fail call_spawn call_interrupt call_cond call_query ... do_call
-     cond_check cond_build remove_checks populate   Condition._check/_build_value/_remove_check_callbacks/_populate_value
+     cond_check cond_build remove_check_from remove_ops remove_checks populate_ops populate   Condition._check/_build_value/_remove_check_callbacks/_populate_value
      run_frag                     runs the synchronous calls of a fragment up to Yield/Return/Raise
      proc_finish proc_wait resume_loop resume_proc   Process._resume
      do_interruption stop_cb probe_cb run_cb run_callbacks
-     step                         Environment.step
+     pop_state step               Environment.step
      run_prelude run_loop run     Environment.run(until = None | number | event)
      init_state exec_top          initial state; code executed outside any process (active = None)
 
@@ -292,72 +292,79 @@ Definition cond_check (c op : evid) (s : state) : state :=
   end.
 
 (* Condition._remove_check_callbacks, recursively; fuel bounds the nesting depth (operands are older
-   than their condition, so [S c] is enough); None = fuel exhausted or a dangling operand *)
+   than their condition, so [S c] is enough); None = fuel exhausted or a dangling operand.
+   [remove_ops rec c ops]: the loop over the operands of c; [rec] handles a nested condition. *)
+Definition remove_check_from (c o : evid) (s : state) : state :=
+  match get_event o s with
+  | Some oev => match cbs oev with
+                | Some l => if mem_cb (CbCheck c) l
+                            then upd_event o (ev_set_cbs (Some (remove_first (CbCheck c) l))) s
+                            else s
+                | None => s
+                end
+  | None => s
+  end.
+
+Definition is_cond (ev : event) : bool := match kind ev with KCond _ _ _ => true | _ => false end.
+
+Fixpoint remove_ops (rec : evid -> state -> option state) (c : evid) (l : list evid) (s : state) : option state :=
+  match l with
+  | [] => Some s
+  | o :: t =>
+      match get_event o s with
+      | None => None
+      | Some oev =>
+          let s1 := remove_check_from c o s in
+          if is_cond oev
+          then match rec o s1 with Some s2 => remove_ops rec c t s2 | None => None end
+          else remove_ops rec c t s1
+      end
+  end.
+
 Fixpoint remove_checks (fuel : nat) (c : evid) (s : state) : option state :=
   match fuel with
   | O => None
   | S f =>
       match get_event c s with
-      | Some cev =>
-          match kind cev with
-          | KCond _ ops _ =>
-              (fix go (l : list evid) (s : state) : option state :=
-                 match l with
-                 | [] => Some s
-                 | o :: t =>
-                     match get_event o s with
-                     | None => None
-                     | Some oev =>
-                         let s1 := match cbs oev with
-                                   | Some l' => if mem_cb (CbCheck c) l'
-                                                then upd_event o (ev_set_cbs (Some (remove_first (CbCheck c) l'))) s
-                                                else s
-                                   | None => s
-                                   end in
-                         match kind oev with
-                         | KCond _ _ _ => match remove_checks f o s1 with
-                                          | Some s2 => go t s2
-                                          | None => None
-                                          end
-                         | _ => go t s1
-                         end
-                     end
-                 end) ops s
-          | _ => Some s
-          end
+      | Some cev => match kind cev with
+                    | KCond _ ops _ => remove_ops (remove_checks f) c ops s
+                    | _ => Some s
+                    end
       | None => None
       end
   end.
 
 (* Condition._populate_value: the processed leaves, left to right, nested conditions flattened *)
+Fixpoint populate_ops (rec : list evid -> option (list (evid * val))) (evs : list event) (l : list evid)
+  : option (list (evid * val)) :=
+  match l with
+  | [] => Some []
+  | o :: t =>
+      match nth_error evs o with
+      | None => None
+      | Some oev =>
+          match kind oev with
+          | KCond _ ops' _ =>
+              match rec ops', populate_ops rec evs t with
+              | Some inner, Some rest => Some (inner ++ rest)
+              | _, _ => None
+              end
+          | _ =>
+              match cbs oev with
+              | None => match raw_value oev, populate_ops rec evs t with
+                        | Some v, Some rest => Some ((o, v) :: rest)
+                        | _, _ => None
+                        end
+              | Some _ => populate_ops rec evs t
+              end
+          end
+      end
+  end.
+
 Fixpoint populate (fuel : nat) (evs : list event) (ops : list evid) : option (list (evid * val)) :=
   match fuel with
   | O => None
-  | S f =>
-      (fix go (l : list evid) : option (list (evid * val)) :=
-         match l with
-         | [] => Some []
-         | o :: t =>
-             match nth_error evs o with
-             | None => None
-             | Some oev =>
-                 match kind oev with
-                 | KCond _ ops' _ =>
-                     match populate f evs ops', go t with
-                     | Some inner, Some rest => Some (inner ++ rest)
-                     | _, _ => None
-                     end
-                 | _ =>
-                     match cbs oev with
-                     | None => match raw_value oev, go t with
-                               | Some v, Some rest => Some ((o, v) :: rest)
-                               | _, _ => None
-                               end
-                     | Some _ => go t
-                     end
-                 end
-             end
-         end) ops
+  | S f => populate_ops (populate f evs) evs ops
   end.
 
 (* Condition._build_value (callback of the condition c itself) *)
@@ -677,13 +684,17 @@ Definition check_failure (e : evid) (s : state) : result :=
   | None => RBroken
   end.
 
+(* self._now, _, _, event = heappop(self._queue) *)
+Definition pop_state (m : entry) (rest : list entry) (s : state) : state :=
+  add_obs (OStep (e_ev m) (e_time m)) (set_agenda rest (set_now (e_time m) s)).
+
 (* Environment.step *)
 Definition step (fuel : nat) (codes : list prog) (s : state) : state * result :=
   match pop_min (agenda s) with
   | None => (s, REmpty)
   | Some (m, rest) =>
       let e := e_ev m in
-      let s1 := add_obs (OStep e (e_time m)) (set_agenda rest (set_now (e_time m) s)) in
+      let s1 := pop_state m rest s in
       match get_event e s1 with
       | None => (s1, RBroken)
       | Some ev =>
